@@ -301,6 +301,52 @@ def run_tool_scenario(ctx, idx, depth, script=None):
     finally:
         tw.close(); sb.close()
 
+def big_plan_scenarios(ctx, n):
+    """the reviewed plan is the WHOLE plan: a skill with 40-90 files is reviewed (deploy -> token), then one source file
+    changes — among them the one whose plan entry sorts last, same op counts — and deploy_apply with the old token
+    must answer E_CONFIRM_TOKEN_MISMATCH whatever the size of the plan; a fresh review then applies"""
+    rng = ctx.rng
+    for i in range(n):
+        sb = Sandbox('c11b'); sb.git_init_project()
+        try:
+            codex_home = os.path.join(sb.home, 'codex_home'); os.makedirs(codex_home)
+            nfiles = rng.choice([40, 51, 61, 90])
+            names = ['ref/f%03d.md' % k for k in range(nfiles)]
+            world.write(os.path.join(sb.repo, 'modules/skills/big/SKILL.md'), '---\nname: big\ndescription: d\n---\nbody\n')
+            for nm in names: world.write(os.path.join(sb.repo, 'modules/skills/big', nm), 'v1 %s\n' % nm)
+            world.write_config(sb.repo, {'version': 1, 'profiles': {'default': {'include_tags': ['base']}},
+                                         'targets': {'codex': {'mode': 'files', 'scope': 'user', 'options': {'codex_home': codex_home, 'write_agents_global': False,
+                                                     'write_agents_repo_root': False, 'write_user_skills': True, 'write_repo_skills': False, 'write_user_prompts': False}}},
+                                         'modules': [{'id': 'skill:big', 'type': 'skill', 'tags': ['base'], 'source': {'local_path': {'path': 'modules/skills/big'}}}]})
+            srv = Mcp(sb, {})
+            try:
+                m0, e0 = srv.call('deploy', {})
+                tok = (e0 or {}).get('data', {}).get('confirm_token') if e0 and e0.get('ok') else None
+                if not tok:
+                    ctx.notes.append('big_plan %d: deploy issued no token' % i); continue
+                victim = rng.choice([names[-1], names[-1], names[nfiles // 2], names[0]])
+                world.write(os.path.join(sb.repo, 'modules/skills/big', victim), 'v2 %s (changed after the review)\n' % victim)
+                before = sb.snapshot(sb.home)
+                m1, e1 = srv.call('deploy_apply', {'yes': True, 'confirm_token': tok})
+                delta = snap_diff(before, sb.snapshot(sb.home))
+                code = (e1 or {}).get('errors', [{}])[0].get('code') if e1 and not e1.get('ok') else None
+                case = {'stream': 'big_plan', 'files': nfiles, 'changed_after_review': victim, 'apply_ok': bool(e1 and e1.get('ok')), 'apply_error': code,
+                        'fs_delta': sorted(os.path.relpath(q, sb.root) for q in delta)[:8]}
+                ctx.count('big_plan', key=(nfiles, victim == names[-1]), nontrivial=True, tags=['files:%d' % nfiles, 'victim:' + ('last' if victim == names[-1] else 'other')])
+                if (e1 and e1.get('ok') and e1['data'].get('applied')) or delta:
+                    ctx.violation('deploy_apply applied (or wrote) with a token issued for a plan of %d changes although a source file changed after the review' % (nfiles + 1), case)
+                elif code != 'E_CONFIRM_TOKEN_MISMATCH':
+                    ctx.violation('stale token on a %d-change plan answered with %r instead of E_CONFIRM_TOKEN_MISMATCH' % (nfiles + 1, code), case)
+                m2, e2 = srv.call('deploy', {})
+                tok2 = (e2 or {}).get('data', {}).get('confirm_token') if e2 and e2.get('ok') else None
+                m3, e3 = srv.call('deploy_apply', {'yes': True, 'confirm_token': tok2}) if tok2 else (None, None)
+                if not (e3 and e3.get('ok') and e3['data'].get('applied')):
+                    ctx.violation('a fresh review of the %d-change plan could not be applied' % (nfiles + 1), dict(case, second_apply=(e3 or {}).get('errors')))
+            finally:
+                srv.close()
+        finally:
+            sb.close()
+
 def run_concurrent_pairs(ctx, rounds):
     """two concurrent deploy_apply calls with one token must not both apply"""
     for r in range(rounds):
@@ -367,4 +413,5 @@ def run(ctx):
         if r: cases.append(r)
     for c in ctx.corr('tool', HEADER, 'check_tool', 'list op * list (N * str * str)', cases, shard_chars=30000):
         ctx.violation('model and implementation disagree on the deploy/deploy_apply state machine', c, no_input=True)
+    big_plan_scenarios(ctx, 3 if quick else 24)
     run_concurrent_pairs(ctx, 3 if quick else 40)
